@@ -49,24 +49,41 @@ func storeCase(h *harness.H, c int, r *prng.R) {
 	gs := verifx.NewGossipStore(verifx.KVConfig{RecoveryThreshold: recoveryThreshold})
 	nKeys := r.Range(1, 3)
 	cur := map[string]int64{}        // key -> newest stored version
+	lease := map[string]uint32{}     // key -> leaseholder of that newest stored operation
+	tied := map[string]int64{}       // key -> version at which a tie was persisted
 	fb := map[string]map[int64]int{} // key -> version -> feedback digests processed
 	var evs []storeEvent
 	nextVer := int64(0)
 	nEv := r.Range(8, 40)
-	lateFeedback, recovered := 0, 0
+	lateFeedback, recovered, ties := 0, 0, 0
 	shape := ""
 	for i := 0; i < nEv; i++ {
 		key := fmt.Sprintf("k%d", r.Intn(nKeys))
 		if cur[key] == 0 || r.Chance(1, 4) {
-			nextVer++
-			op := verifx.Operation{Change: xkv.Change{Key: []byte(key), Value: []byte("x"), Variant: change.VariantSet}, Version: version.Counter(nextVer), Leaseholder: 1}
+			// what the persist stage hands over is always the winner so far: a newer version,
+			// or (1 in 5) the SAME version from a higher leaseholder (two nodes created the
+			// key at once; the tie goes to the higher one, which must then be the one offered)
+			ver, lh := nextVer+1, uint32(1)
+			if cur[key] != 0 && cur[key] == nextVer && r.Chance(1, 5) {
+				ver, lh = cur[key], lease[key]+1
+				ties++
+			} else {
+				nextVer++
+			}
+			op := verifx.Operation{Change: xkv.Change{Key: []byte(key), Value: []byte(fmt.Sprintf("x%d", lh)), Variant: change.VariantSet}, Version: version.Counter(ver), Leaseholder: verifx.NodeKey(lh)}
 			if err := gs.Store(ctx, verifx.TxRequest{Operations: []verifx.Operation{op}}); err != nil {
 				h.Inconclusive("store-error")
 				return
 			}
-			cur[key] = nextVer
-			evs = append(evs, storeEvent{"persisted", key, nextVer})
-			shape += fmt.Sprintf("P%s.%d,", key, nextVer)
+			if ver == cur[key] {
+				// whether feedback counted for the loser carries over to the winner is the
+				// store's own business: the feedback-count rule is not applied to this
+				// version any more, only the tie rule
+				tied[key] = ver
+			}
+			cur[key], lease[key] = ver, lh
+			evs = append(evs, storeEvent{"persisted", key, ver})
+			shape += fmt.Sprintf("P%s.%d.%d,", key, ver, lh)
 		} else {
 			// feedback for the current version (3/4) or for an older version of the key
 			v := cur[key]
@@ -87,7 +104,11 @@ func storeCase(h *harness.H, c int, r *prng.R) {
 					lateFeedback++
 				}
 			}
-			rec, err := gs.Feedback(ctx, verifx.Digests{{Key: []byte(key), Version: version.Counter(v), Leaseholder: 1, Variant: change.VariantSet}})
+			fl := uint32(1)
+			if v == cur[key] {
+				fl = lease[key]
+			}
+			rec, err := gs.Feedback(ctx, verifx.Digests{{Key: []byte(key), Version: version.Counter(v), Leaseholder: verifx.NodeKey(fl), Variant: change.VariantSet}})
 			if err != nil {
 				h.Inconclusive("store-error")
 				return
@@ -108,10 +129,22 @@ func storeCase(h *harness.H, c int, r *prng.R) {
 		}
 		// invariant after every event, for every key
 		offered := map[string]int64{}
+		offeredLease := map[string]uint32{}
 		for _, op := range gs.Infected(ctx) {
 			offered[string(op.Key)] = int64(op.Version)
+			offeredLease[string(op.Key)] = uint32(op.Leaseholder)
 		}
 		for k, v := range cur {
+			if offered[k] == v && offeredLease[k] != lease[k] {
+				why := fmt.Sprintf("after event %d (%+v) the store offers %s@v%d of leaseholder %d although the operation persisted last for that version is leaseholder %d's (equal versions go to the higher leaseholder)", i, evs[len(evs)-1], k, v, offeredLease[k], lease[k])
+				h.Violation("store", c, "c06:store-offers-the-loser-of-a-version-tie", why, map[string]any{"why": why, "events": evs})
+				return
+			}
+		}
+		for k, v := range cur {
+			if tied[k] == v {
+				continue
+			}
 			if fb[k][v] <= recoveryThreshold && offered[k] != v {
 				why := fmt.Sprintf("after event %d (%+v) the store no longer offers %s@v%d although only %d feedback digests for that version were processed (threshold %d); it offers v%d", i, evs[len(evs)-1], k, v, fb[k][v], recoveryThreshold, offered[k])
 				h.Violation("store", c, "c06:late-feedback-silences-newer-op:store-level", why, map[string]any{"why": why, "events": evs})
@@ -125,4 +158,5 @@ func storeCase(h *harness.H, c int, r *prng.R) {
 	h.Count("store_events", len(evs))
 	h.Count("store_late_feedback_events", lateFeedback)
 	h.Count("store_ops_recovered", recovered)
+	h.Count("store_version_ties_persisted", ties)
 }
